@@ -75,6 +75,7 @@ class ClassInfo:
         self.setters = {}
         self.deleters = {}
         self.attrs = {}                 # class-level assignments name -> expr node
+        self.attr_alts = {}             # name -> every class-level assignment (both branches of a class-level `if`)
         self.is_enum = False
 
     def __repr__(self):
@@ -204,6 +205,7 @@ class Model:
                 for t in b.targets:
                     if isinstance(t, ast.Name):
                         c.attrs[t.id] = b.value
+                        c.attr_alts.setdefault(t.id, []).append(b.value)
 
     def _scan_nested(self, f):
         f.nested = {}
